@@ -44,11 +44,25 @@ GEvidence == \E v \in Vals, n \in 1..(lastBatch + 1), x \in EstVersions :
                /\ v \notin jailed
                /\ Evidence(v, n, x) /\ H("Evidence", [v |-> v, n |-> n, x |-> x])
 
+\* key rotation (sigs family): a validator registers a new remote-chain key; from then on only the NEW key is its
+\* registered key. ReKey and evidence signed with the OLD key leave the model state unchanged (nobody can be punished for
+\* a signature that is not by a registered key); Confirm / Evidence of that validator use the new key in the driver.
+ReKeyed(v) == \E i \in DOMAIN hist : hist[i].act = "ReKey" /\ hist[i].args.v = v
+GReKey == \E v \in {1} : ~ReKeyed(v) /\ res' = "gov"
+            /\ UNCHANGED <<bal, escrow, supply, community, pool, batches, lastTx, lastBatch, tax, limit, usage, height, claims, estimates,
+                           confirms, archived, accepted, refunded, burned, deposited, burnedSum, issued, sent, jailed, punished>>
+            /\ H("ReKey", [v |-> v])
+GEvidenceOld == \E v \in {1}, n \in 1..(lastBatch + 1), x \in EstVersions : ReKeyed(v) /\ v \notin jailed /\ res' = "fail"
+            /\ UNCHANGED <<bal, escrow, supply, community, pool, batches, lastTx, lastBatch, tax, limit, usage, height, claims, estimates,
+                           confirms, archived, accepted, refunded, burned, deposited, burnedSum, issued, sent, jailed, punished>>
+            /\ H("EvidenceOld", [v |-> v, n |-> n, x |-> x])
+
 GNext ==
   CASE Family = "funds"  -> GSend \/ GCancel \/ GSetTax \/ GClaimExec \/ GClaimDep \/ GEndBlock \/ GAdvance
     [] Family = "limits" -> GSend \/ GSetTax \/ GSetLimit \/ GAdvance \/ GCancel
     [] Family = "limbatch" -> GSend \/ GSetLimit \/ GAdvance \/ GEndBlock \/ GCancel   \* limit usage across the batch life cycle (build, timeout, cancel)
     [] Family = "sigs"   -> GSend \/ GEstimate \/ GConfirm \/ GEvidence \/ GClaimExec \/ GEndBlock \/ GAdvance
+    [] Family = "rekey"  -> GSend \/ GEstimate \/ GConfirm \/ GEvidence \/ GEndBlock \/ GAdvance \/ GReKey \/ GEvidenceOld
     [] OTHER             -> GSend \/ GCancel \/ GSetTax \/ GSetLimit \/ GClaimExec \/ GClaimDep \/ GEndBlock \/ GAdvance
                             \/ GEstimate \/ GConfirm \/ GEvidence
 
@@ -63,7 +77,8 @@ GConstr == /\ Len(hist) <= MaxOps /\ lastTx <= MaxTx /\ lastBatch <= MaxBatch /\
 \* cover mode: TLC evaluates invariants on every generated successor (before the fingerprint check),
 \* but evaluates the next-state relation once per distinct (dequeued) state: emit from there.
 EmitCond == /\ Len(hist) >= 3 /\ (res \in {"eb", "fail"} \/ Family # "funds")
-            /\ (Family \in {"limits", "limbatch"} => hist[Len(hist)].act = "Send")      \* limits are decided when a transfer is sent
+            /\ (Family \in {"limits", "limbatch"} => hist[Len(hist)].act = "Send")
+            /\ (Family = "rekey" => hist[Len(hist)].act \in {"EvidenceOld", "Evidence", "Confirm"} /\ ReKeyed(1))      \* limits are decided when a transfer is sent
 GNextC == (IF EmitCond THEN PrintT(<<"HIST", ToJson(hist)>>) ELSE TRUE) /\ GNext
 Emit == Len(hist) = EmitAt => PrintT(<<"HIST", ToJson(hist)>>)
 =============================================================================
